@@ -20,6 +20,18 @@ long gl_file, go_file;
 int *go_d;
 long g_num_id, g_num_val;
 long nondet_long(void);
+unsigned long nondet_ulong(void);
+/* strtoul on the same string: the same mathematical value, saturated at ULONG_MAX instead of LONG_MAX */
+unsigned long g_num_uval;
+unsigned long strtoul(const char *s, char **end, int base)
+{
+  unsigned long r = nondet_ulong();
+  if ((long)s == g_num_id) {
+    __CPROVER_assume(g_num_uval <= 9223372036854775807ul ? g_num_val == (long)g_num_uval : g_num_val == 9223372036854775807l);
+    r = g_num_uval;
+  }
+  return r;
+}
 long strtol(const char *s, char **end, int base)
 {
   long r = nondet_long();
@@ -59,5 +71,5 @@ __CPROVER_ensures(__CPROVER_return_value >= 0) /*@C20,C02*/;
 int w_strToInt(void *p, void *c);
 int w_strToIntSilent(void *c);
 #define CANARY __CPROVER_assert(0, "canary: end of harness reachable (requires satisfiable)")
-void h_strToInt(void) { void *p, *c; model_ghost_havoc(); g_num_id = nondet_long(); g_num_val = nondet_long(); w_strToInt(p, c); CANARY; }
-void h_strToIntSilent(void) { void *c; model_ghost_havoc(); g_num_id = nondet_long(); g_num_val = nondet_long(); w_strToIntSilent(c); CANARY; }
+void h_strToInt(void) { void *p, *c; model_ghost_havoc(); g_num_id = nondet_long(); g_num_val = nondet_long(); g_num_uval = nondet_ulong(); w_strToInt(p, c); CANARY; }
+void h_strToIntSilent(void) { void *c; model_ghost_havoc(); g_num_id = nondet_long(); g_num_val = nondet_long(); g_num_uval = nondet_ulong(); w_strToIntSilent(c); CANARY; }
